@@ -159,23 +159,24 @@ def cmd_import_benign(src, tag):
 
 
 def cmd_benign(ids):
+    REPO = os.environ.get('SEED_REPO', '/repo')     # a scratch worktree of /repo may stand in for it
     global SEEDED
     SEEDED = os.path.join(V, 'benign')
-    st = sh(['git', '-C', '/repo', 'status', '--porcelain'])
+    st = sh(['git', '-C', REPO, 'status', '--porcelain'])
     assert not st.stdout.strip(), '/repo is not clean'
     bad = 0
     for sid in ids_or_all(ids):
         d = os.path.join(SEEDED, sid)
         meta = load_meta(d)
-        ap = sh(['git', '-C', '/repo', 'apply', os.path.join(d, 'patch.diff')])
+        ap = sh(['git', '-C', REPO, 'apply', os.path.join(d, 'patch.diff')])
         if ap.returncode != 0:
             print(sid, 'patch does not apply', ap.stderr[:200])
             continue
         try:
-            t = sh([PY, '-m', 'pytest', '-q', '-p', 'no:cacheprovider', 'tests'], cwd='/repo')
+            t = sh([PY, '-m', 'pytest', '-q', '-p', 'no:cacheprovider', 'tests'], cwd=REPO)
             tail = (t.stdout.strip().splitlines() or ['?'])[-1]
             env = dict(os.environ, SA_NOWRITE='1')
-            procs = {p: subprocess.Popen([PY, '-m', 'sa.check', p, '--tier', 'quick'], cwd=V, env=env, stdout=subprocess.PIPE, stderr=subprocess.STDOUT, text=True)
+            procs = {p: subprocess.Popen([PY, '-m', 'sa.check', p, '--tier', 'quick', '--repo', REPO], cwd=V, env=env, stdout=subprocess.PIPE, stderr=subprocess.STDOUT, text=True)
                      for p in PROPS}
             alarms = {}
             for p, pr in procs.items():
@@ -183,8 +184,8 @@ def cmd_benign(ids):
                 if pr.returncode != 0:
                     alarms[p] = {'exit': pr.returncode, 'lines': [l[:260] for l in out.splitlines() if l.startswith(('  ', 'ANALYSIS-ERROR'))][:4]}
         finally:
-            sh(['git', '-C', '/repo', 'checkout', '--', '.'])
-            sh(['git', '-C', '/repo', 'clean', '-fdq', 'src'])
+            sh(['git', '-C', REPO, 'checkout', '--', '.'])
+            sh(['git', '-C', REPO, 'clean', '-fdq', 'src'])
         meta['tests_with_change'] = tail
         if 'alarms' not in meta:      # the very first run against this refactoring, before any tuning of the rules
             meta['first_shot_alarms'] = alarms
@@ -195,7 +196,7 @@ def cmd_benign(ids):
             bad += 1
             for l in a['lines'][:2]:
                 print('      %s exit %d %s' % (p, a['exit'], l))
-    assert not sh(['git', '-C', '/repo', 'status', '--porcelain']).stdout.strip(), '/repo left dirty!'
+    assert not sh(['git', '-C', REPO, 'status', '--porcelain']).stdout.strip(), '/repo left dirty!'
     return bad
 
 
